@@ -106,8 +106,18 @@ fn attempt(cx: &mut Ctx, sm: &mut Summary, t: &mut Tally, bytes: &[u8], what: &s
         }
     }
     sm.oracle_evaluations += 1;
-    let class = decode_class(bytes); // a first, stateless decode (also under test: must not panic)
     let replay = json!({"kind": "load", "bytes": hex(bytes), "what": what});
+    // a first, stateless decode (also under test: must not panic)
+    let class = {
+        let b = bytes.to_vec();
+        match catch(move || decode_class(&b)) {
+            Ok(c) => c,
+            Err(p) => {
+                sm.failure(None, &format!("decoding panicked: {}", p), replay.clone());
+                "panic"
+            }
+        }
+    };
     let t0 = Instant::now();
     let pre = std::mem::replace(&mut cx.pre, Engine::new(true));
     let res = catch(std::panic::AssertUnwindSafe(move || {
